@@ -153,7 +153,7 @@ class World(object):
             if gcs is None or ocs is None or objk is None: raise EncodeError('gate future with a non-constant gate/op')
             opened = FALSE
             for gk, gc in gcs:
-                opened = Or(opened, And(gc, TRUE if gk == 99 else s.ghost.get('gate%d' % gk, FALSE)))
+                opened = Or(opened, And(gc, TRUE if gk in (99, 96) else s.ghost.get('gate%d' % gk, FALSE)))
             fin = And(g, opened)
             # completing: leave the object
             occ = s.ghost.get('occ%d' % objk, ZERO)
@@ -167,7 +167,7 @@ class World(object):
                 wk = mm.load(cx.f['w'], g) if isinstance(cx, St) else None
                 for gk, gc in gcs:
                     pk_ = And(pend, gc)
-                    if pk_ is FALSE or gk == 99: continue
+                    if pk_ is FALSE or gk in (99, 96): continue
                     if isinstance(wk, St):
                         wkc = s.nat.table['__waker_clone'].apply(mm, th, [cx.f['w']], pk_)
                         old = s.ghost.get('gatewaker%d' % gk, NoneV())
@@ -179,8 +179,20 @@ class World(object):
             pin = a[0]; r = pin.f[0] if isinstance(pin, St) and pin.ty == 'Pin' else pin
             fut = mm.load(r, g)
             if not isinstance(fut, St) or 0 not in fut.f or fut.f[0].op != 'c': return ZERO
-            return BV({97: 1, 98: 2}.get(fut.f[0].val, 0))
+            return BV({97: 1, 98: 2, 96: 3}.get(fut.f[0].val, 0))
         R('__gate_mode', gate_mode)
+        def gate_yielded(mm, th, a, g):
+            pin = a[0]; r = pin.f[0] if isinstance(pin, St) and pin.ty == 'Pin' else pin
+            fut = mm.load(r, g)
+            return s.ghost.get('yielded%d' % fut.f[1].val, FALSE)
+        R('__gate_yielded', gate_yielded)
+        def gate_poll_yield(mm, th, a, g):
+            pin = a[0]; r = pin.f[0] if isinstance(pin, St) and pin.ty == 'Pin' else pin
+            fut = mm.load(r, g); opk = fut.f[1].val
+            s.gset('yielded%d' % opk, TRUE, g, FALSE)
+            s.gset('polled_pending%d' % opk, TRUE, g, FALSE)
+            return En(POLL, ONE, {})
+        R('__gate_poll_yield', gate_poll_yield, visible=True)
         def gatefut_drop(mm, th, a, g):
             fut = mm.load(a[0], g)
             if not isinstance(fut, St): return UNIT
@@ -593,7 +605,7 @@ class World(object):
         _3 = __gate_mode(copy _1) -> [return: bb1, unwind continue];
     }
     bb1: {
-        switchInt(move _3) -> [0: bb2, 1: bb6, otherwise: bb4];
+        switchInt(move _3) -> [0: bb2, 1: bb6, 3: bb7, otherwise: bb4];
     }
     bb2: {
         _0 = __gate_poll(copy _1, copy _2) -> [return: bb3, unwind continue];
@@ -609,6 +621,21 @@ class World(object):
     }
     bb6: {
         _6 = __panic() -> [return: bb3, unwind continue];
+    }
+    bb7: {
+        _7 = __gate_yielded(copy _1) -> [return: bb8, unwind continue];
+    }
+    bb8: {
+        switchInt(move _7) -> [0: bb9, otherwise: bb2];
+    }
+    bb9: {
+        _4 = Context::waker(copy _2) -> [return: bb10, unwind continue];
+    }
+    bb10: {
+        _5 = Waker::wake_by_ref(copy _4) -> [return: bb11, unwind continue];
+    }
+    bb11: {
+        _0 = __gate_poll_yield(copy _1) -> [return: bb3, unwind continue];
     }
 }
 
@@ -692,7 +719,7 @@ fn scen::DropFlag::drop(_1: &mut DropFlag) -> () {
             op['tid'] = [t.tid for t in m.threads if t.name == op['thread']][0]
     def future_closure(s, tname, oi, cl, obj, opid, fk, tok):
         """closure passed to future_desync/future_sync: enters the object and returns the user future (ready, or pending on a gate)"""
-        gate = fk[1] if isinstance(fk, tuple) else {'panic': 97, 'wake_panic': 98}.get(fk, 99)
+        gate = fk[1] if isinstance(fk, tuple) else {'panic': 97, 'wake_panic': 98, 'yield': 96}.get(fk, 99)
         return '''fn scen::thread_%s::{closure#%d}(_1: {closure@%s}) -> GateFut {
     bb0: {
         _2 = __enter(const %d_usize, const %d_usize) -> [return: bb1, unwind continue];
